@@ -2724,6 +2724,14 @@ impl Connection {
 
                             // Discard already-queued frames
                             self.spaces[SpaceId::Data].pending = Retransmits::default();
+                            if self.streams.flow_control_adjusted() {
+                                // Limits the application raised during the 0-RTT phase were
+                                // announced in packets the server has discarded: the server
+                                // only knows our transport parameters. Announce them again.
+                                let pending = &mut self.spaces[SpaceId::Data].pending;
+                                pending.max_data = true;
+                                pending.max_stream_id = [true; 2];
+                            }
 
                             // Discard 0-RTT packets
                             let sent_packets =
